@@ -76,4 +76,26 @@ LEVELS = {
   'note': 'Trusted: Lean kernel (+ nlinarith), dispatcher model, swap/oracle stubs (E6). PARTIAL: no-zero-transfer (known finding D3, three call sites), and the sub-unit lower bound of the buying branch.',
   'technique': 'Lean 4 theorems on get_swap_info / dispatch message construction; function-level differential correspondence through the real execute entry point',
  },
+ 'C10': {
+  'text': 'Decision tables proved in Lean for all states, payloads and senders: C10_hub (every privileged hub message fails for a sender outside hubPrincipalOk - owner for UpdateConfig/UpdateParams/SetOwner, nominee for AcceptOwnership, dispatcher for BondRewards, '
+          'registry for RedelegateProxy, updater or registry for UpdateGlobalIndex, the hub itself for SwapHook, the airdrop registry for ClaimAirdrop, the two registered tokens for Receive), C10_reward, C10_dispatcher, C10_registry, C10_tokens (Mint/Burn), '
+          'C10_hub_ownership (nominate -> accept; the ex-owner loses every owner right), C10_token_addresses_write_once; a failed message changes nothing (C20_rejected_changes_nothing). '
+          'Exhaustive matrix on the real contracts: 61 message payloads x 14 sender classes x 4 state classes, every cell compared with the model and judged against the principal table read from the implementation itself.',
+  'note': 'Trusted: Lean kernel; handler models; the matrix payloads are one representative per variant (the theorems quantify over all payloads). Two-step ownership is proved for the hub; the other three contracts use the same code shape and are covered by the matrix classes 2 and 3.',
+  'technique': 'Lean 4 decision-table theorems; exhaustive message x sender x state matrix on the implementation',
+ },
+ 'C11': {
+  'text': 'C11_paused_blocks: while paused every hub message except UpdateParams and the migration fails for every sender and payload; C11_paused_exceptions: UpdateParams stays owner-only and the migration changes only wait-list entries (no pool, batch, history, parameter or address); '
+          'C11_no_unpause_with_legacy: un-pausing is refused while legacy entries remain and the migration clears the flag only when none remain; C11_pause_unpause_identity: pause;unpause returns exactly the pre-pause state up to the flag representation. '
+          'Matrix on the real hub: every variant x 14 senders while paused (with/without legacy entries), un-pause attempts, migration in steps; 12 histories re-run with an inserted pause cycle and compared.',
+  'note': 'Trusted: Lean kernel; hub model; queries are total functions of the state in the model (they do not read the flag) - on the implementation this is observed by the harness querying after every paused cell. Legacy entries are seeded through the public storage prefix as the repo test does.',
+  'technique': 'Lean 4 guard theorem + state identity; exhaustive paused matrix and pause-cycle insertion on the implementation',
+ },
+ 'C20': {
+  'text': 'C20_hub_init_range / C20_hub_step_range: peg_recovery_fee <= 1 and er_threshold <= 1 from every instantiate and after every successful hub message of every sender, and no message other than UpdateParams touches a parameter; '
+          'C20_update_params_fields / C20_hub_update_config_fields / C20_dispatcher_fields: each update applies exactly the fields present (omitted => unchanged; the pause flag is set to what the message says), the keeper rate is rejected above 1, the stSei reward denom never changes under any dispatcher message; '
+          'the underlying coin denom has no update path (constant in the model, compared in every observation); C20_rejected_changes_nothing. Exhaustive option matrix on the real contracts.',
+  'note': 'Trusted: Lean kernel; hub/dispatcher models. Reward and registry UpdateConfig are covered by the matrix and the differential check, not by a separate theorem.',
+  'technique': 'Lean 4 invariants + field-wise frame theorems; exhaustive optional-field matrix on the implementation',
+ },
 }
